@@ -15,13 +15,15 @@
    Here the contract is the reference and the Gallina transcription is what is being validated, so the correspondence
    predicate and the property predicate coincide: spec_evm := corr_evm. Definitions only. *)
 From Coq Require Import NArith List Bool.
-From Verif Require Import Base.Bytes Base.FastBytes Base.Hash Model.Merkle Model.BridgeStore Model.Contracts.
+From Verif Require Import Base.Bytes Base.FastBytes Base.Hash Model.Merkle Model.BridgeStore Model.Contracts Model.FindCall Model.Abi.
 Import ListNotations.
 Open Scope N_scope.
 
 (* a BridgeEvent + the two hashes observed for it (contract getLeafValue, repository Bridge.Hash) + the metadata hash the EVM-side
    keccak produced (argument of the getLeafValue call) *)
-Record bobs := mkBO { bo_ev : bridge_ev; bo_leaf_contract : N; bo_meta_hash : N; bo_leaf_repo : N }.
+Record bobs := mkBO { bo_ev : bridge_ev; bo_leaf_contract : N; bo_meta_hash : N; bo_leaf_repo : N;
+                      bo_data : list N;      (* the log's data as 32-byte words (what the chain emitted) *)
+                      bo_log_index : N }.    (* the log's index in its block *)
 
 (* UpdateL1InfoTreeV2 of the same update: currentL1InfoRoot, leafCount, blockhash, minTimestamp *)
 Record l1v2 := mkV2 { v2_root : N; v2_count : N; v2_blockhash : N; v2_ts : N }.
@@ -68,6 +70,10 @@ Definition K_VERIFY := 18.         (* dc_verify_merkle_proof <> bridge.verifyMer
 Definition K_VLEAF := 19.          (* the leaf / root handed over is not the model's j-th leaf / root of version k *)
 Definition K_REJECTED := 20.       (* THE PROPERTY: the contract rejected a proof served by the node (or the proof has not 32 siblings) *)
 Definition K_TAMPER_OK := 21.      (* the contract accepted a tampered proof *)
+Definition K_NODE_LEAF := 23.      (* THE PROPERTY (no model involved): Bridge.Hash() of the Bridge the real appender built from the log <> the
+                                      contract's getLeafValue for the event as emitted *)
+Definition K_EVENT_DECODE := 22.   (* the Bridge the REAL log appender built <> Model/Abi.v decode_bridge_event of the log's data, or its
+                                      block position <> the log index *)
 
 Definition chk (b : bool) (code : N) : list N := if b then [] else [code].
 
@@ -103,7 +109,13 @@ Definition do_bev (acc : mstate * list N) (o : bobs) : mstate * list N :=
   (mkM c' r' (m_g m) (m_groot m) (m_mer m) (m_rer m) ((bo_leaf_repo o, r') :: m_hist m),
    bad ++ chk (leaf =? bo_leaf_contract o) K_LEAF_EVENT ++ chk (leaf =? bo_leaf_repo o) K_LEAF_REPO
        ++ chk (bridge_leaf b =? bo_leaf_contract o) K_LEAF_MODEL ++ chk (keccakN (b_meta b) =? bo_meta_hash o) K_META_HASH
-       ++ chk (b_dc b =? dc_count (m_b m)) K_BCOUNT).
+       ++ chk (b_dc b =? dc_count (m_b m)) K_BCOUNT
+       ++ chk (bo_leaf_repo o =? bo_leaf_contract o) K_NODE_LEAF
+       ++ chk (match decode_bridge_event (flat_map (be_fast 32) (bo_data o)) with
+               | Some f => (bf_lt f =? b_lt b) && (bf_onet f =? b_onet b) && (bf_oaddr f =? b_oaddr b) && (bf_dnet f =? b_dnet b) &&
+                           (bf_daddr f =? b_daddr b) && (bf_amount f =? b_amount b) && bytes_eqb (bf_meta f) (b_meta b) && (bf_dc f =? b_dc b)
+               | None => false
+               end && (b_pos b =? bo_log_index o)) K_EVENT_DECODE).
 
 Definition do_l1 (acc : mstate * list N) (o : l1obs) : mstate * list N :=
   let '(m, bad) := acc in
